@@ -15,7 +15,7 @@ use crate::spec::DefSpec;
 pub const ALPHABET: &[&[u8]] = &[
     b"a", b"b", b"c", b"x", b"0", b"1", b"-", b"_", b".", b"*", b" ", b"\n", "é".as_bytes(), "ß".as_bytes(), "λ".as_bytes(), "σ".as_bytes(),
     "ς".as_bytes(), "Σ".as_bytes(), "\u{212A}".as_bytes(), "ſ".as_bytes(), "日".as_bytes(), "😀".as_bytes(), b"A", b"k", b"s", b"z", b"9", b"e",
-    "\u{a0}".as_bytes(), "\u{2003}".as_bytes(), "٣".as_bytes(),
+    "\u{a0}".as_bytes(), "\u{2003}".as_bytes(), "٣".as_bytes(), b"[", b"]", b"(",
 ];
 pub const BYTE_NOISE: &[&[u8]] = &[b"\x00", b"\x7f", b"\x80", b"\xC3", b"\xA9", b"\xFF", b"\xE6", b"\xF0\x9F"];
 
